@@ -14,7 +14,14 @@ A program is a JSON-able description of a small class tree:
           "parsers":  [{method, targets, fn}],          (pandas only)
           "df_parsers":[{method, fn}],                  (pandas only)
           "config":   None | {"style": plain|subclass, "options": {...},
-                              "extras": {...}}}
+                              "extras": {...}},
+          "limit":    None | int}     (the class defines ``_pvm_limit``)
+  prog["limit_style"] = "const" | "classmethod": ``_pvm_limit = 3`` or
+  ``@classmethod def _pvm_limit(cls): return 3``.  The ``cls_*`` predicates /
+  parser functions read it through the ``cls`` argument the custom method
+  receives ("the method will be converted to a classmethod", API reference of
+  pa.check / dataframe_check / parser): a subclass that inherits the method
+  and overrides ``_pvm_limit`` validates with its own value.
 
 Three things are derived from a program, independently of each other:
 
@@ -65,20 +72,33 @@ CHECK_CTOR = {"eq": "equal_to", "ne": "not_equal_to", "gt": "greater_than",
 # name -> dtype classes it is meaningful for ("*" = any)
 PREDS = {"small": ("int64", "float64"), "nonneg": ("int64", "float64"),
          "short": ("str",), "nota": ("str",), "istrue": ("bool",),
-         "late": ("datetime",), "nunique_le3": ("*",), "len_le4": ("*",)}
-ELEMENTWISE_OK = {"small", "nonneg", "nota"}
+         "late": ("datetime",), "nunique_le3": ("*",), "len_le4": ("*",),
+         # bodies that depend on the class they are called with
+         "cls_lt": ("int64", "float64"), "cls_len_le": ("*",)}
+ELEMENTWISE_OK = {"small", "nonneg", "nota", "cls_lt"}
 PARSER_FNS = {"abs": ("int64", "float64"), "clip4": ("int64", "float64"),
-              "lower": ("str",), "ident": ("*",)}
-DF_PARSER_FNS = ["ident", "head5", "sortidx"]
+              "lower": ("str",), "ident": ("*",),
+              "cls_clip": ("int64", "float64")}
+DF_PARSER_FNS = ["ident", "head5", "sortidx", "cls_head", "cls_head"]
+DF_PREDS = ["col_small", "ncols_le4", "nrows_le5", "cls_col_lt", "cls_nrows_le"]
+LIMITS = [0, 1, 2, 3, 4, 5, 7]      # values of the class constant _pvm_limit
+
+
+def cls_dep(name):
+    """Does this predicate / parser function read ``cls._pvm_limit``?"""
+    return isinstance(name, str) and name.startswith("cls_")
 EXTRA_CHECKS = ["pvm_ncols_le", "pvm_nrows_le"]
 
 
-def pd_pred(name, element_wise=False):
+def pd_pred(name, element_wise=False, limit=None):
     import pandas as pd
     if element_wise:
         return {"small": lambda x: x < 5, "nonneg": lambda x: x >= 0,
-                "nota": lambda x: x != "a"}[name]
+                "nota": lambda x: x != "a",
+                "cls_lt": lambda x: x < limit}[name]
     return {
+        "cls_lt": lambda s: s < limit,
+        "cls_len_le": lambda s: len(s) <= limit,
         "small": lambda s: s < 5,
         "nonneg": lambda s: s >= 0,
         "short": lambda s: s.str.len() <= 2,
@@ -90,11 +110,13 @@ def pd_pred(name, element_wise=False):
     }[name]
 
 
-def pl_pred(name, element_wise=False):
+def pl_pred(name, element_wise=False, limit=None):
     import polars as pl
     if element_wise:
-        return pd_pred(name, True)
+        return pd_pred(name, True, limit)
     e = {
+        "cls_lt": lambda c: c < limit,
+        "cls_len_le": lambda c: c.len() <= limit,
         "small": lambda c: c < 5,
         "nonneg": lambda c: c >= 0,
         "short": lambda c: c.str.len_chars() <= 2,
@@ -107,29 +129,35 @@ def pl_pred(name, element_wise=False):
     return lambda data: data.lazyframe.select(e(pl.col(data.key)))
 
 
-def pd_dfpred(name, col):
-    return {"col_small": lambda df: df[col] < 5,
+def pd_dfpred(name, col, limit=None):
+    return {"cls_col_lt": lambda df: df[col] < limit,
+            "cls_nrows_le": lambda df: len(df) <= limit,
+            "col_small": lambda df: df[col] < 5,
             "ncols_le4": lambda df: len(df.columns) <= 4,
             "nrows_le5": lambda df: len(df) <= 5}[name]
 
 
-def pl_dfpred(name, col):
+def pl_dfpred(name, col, limit=None):
     import polars as pl
     return {
+        "cls_col_lt": lambda d: d.lazyframe.select(pl.col(col) < limit),
+        "cls_nrows_le": lambda d: d.lazyframe.select(pl.len() <= limit),
         "col_small": lambda d: d.lazyframe.select(pl.col(col) < 5),
         "ncols_le4": lambda d: len(d.lazyframe.collect_schema().names()) <= 4,
         "nrows_le5": lambda d: d.lazyframe.select(pl.len() <= 5),
     }[name]
 
 
-def parser_fn(name):
+def parser_fn(name, limit=None):
     return {"abs": lambda s: s.abs(), "clip4": lambda s: s.clip(upper=4),
-            "lower": lambda s: s.str.lower(), "ident": lambda s: s}[name]
+            "lower": lambda s: s.str.lower(), "ident": lambda s: s,
+            "cls_clip": lambda s: s.clip(upper=limit)}[name]
 
 
-def df_parser_fn(name):
+def df_parser_fn(name, limit=None):
     return {"ident": lambda df: df, "head5": lambda df: df.head(5),
-            "sortidx": lambda df: df.sort_index()}[name]
+            "sortidx": lambda df: df.sort_index(),
+            "cls_head": lambda df: df.head(limit)}[name]
 
 
 _registered = False
@@ -322,7 +350,7 @@ def gen_program(rng, backend):
         cls = {"name": names[i], "parent": parent,
                "doc": rng.choice([None, None, "Doc of %s." % names[i]]),
                "fields": [], "checks": [], "df_checks": [], "parsers": [],
-               "df_parsers": [], "config": None}
+               "df_parsers": [], "config": None, "limit": None}
         vis_cols = list(inherited["columns"]) if inherited else []
         taken_attrs = {c["_attr"] for c in vis_cols}
         taken_names = {c["name"] for c in vis_cols}
@@ -393,7 +421,19 @@ def gen_program(rng, backend):
             cls["config"] = gen_config(
                 rng, plain, backend, has_parent=parent is not None,
                 inherited_options=inherited["options"] if inherited else None)
-    return {"backend": backend, "classes": classes}
+        # the class constant / helper classmethod that the cls_* bodies read
+        # through ``cls``: defined where the first such method appears; a
+        # subclass that inherits (or adds) such a method often overrides it
+        own_dep = any(cls_dep(d["pred"]) for d in cls["checks"] + cls["df_checks"]) \
+            or any(cls_dep(d["fn"]) for d in cls["parsers"] + cls["df_parsers"])
+        inh_limit = inherited["limit"] if inherited else None
+        if inh_limit is None:
+            if own_dep or rng.random() < 0.04:
+                cls["limit"] = rng.choice(LIMITS)
+        elif (inherited["_cls_dep"] or own_dep) and rng.random() < 0.65:
+            cls["limit"] = rng.choice([v for v in LIMITS if v != inh_limit])
+    return {"backend": backend, "classes": classes,
+            "limit_style": rng.choice(["const", "const", "classmethod"])}
 
 
 def gen_checkdef(rng, method, plain, cols, own_attrs, backend):
@@ -403,7 +443,7 @@ def gen_checkdef(rng, method, plain, cols, own_attrs, backend):
         # regex designation, dtype-agnostic predicate
         d["regex"] = True
         d["targets"] = [rng.choice(["^a", "^[abc]$", ".", "^f\\d", "b"])]
-        d["pred"] = rng.choice(["nunique_le3", "len_le4"])
+        d["pred"] = rng.choice(["nunique_le3", "len_le4", "cls_len_le"])
     else:
         tgt = rng.sample(plain, 1 if rng.random() < 0.8 else min(2, len(plain)))
         d["targets"] = [c["name"] for c in tgt]
@@ -422,13 +462,15 @@ def gen_checkdef(rng, method, plain, cols, own_attrs, backend):
 
 
 def gen_dfcheckdef(rng, method, plain):
-    pred = rng.choice(["col_small", "ncols_le4", "nrows_le5"])
+    pred = rng.choice(DF_PREDS)
     num = [c["name"] for c in plain if c["dtype"] in ("int64", "float64")
            and isinstance(c["name"], str)]
-    if pred == "col_small" and not num:
-        pred = "ncols_le4"
+    if not num:
+        pred = {"col_small": "ncols_le4", "cls_col_lt": "cls_nrows_le"}.get(
+            pred, pred)
     return {"method": method, "pred": pred,
-            "col": rng.choice(num) if pred == "col_small" else None,
+            "col": rng.choice(num) if pred in ("col_small", "cls_col_lt")
+            else None,
             "name": rng.choice([None, None, "df_custom"]),
             "bare": rng.random() < 0.5}
 
@@ -437,7 +479,10 @@ def gen_parserdef(rng, method, plain):
     c = rng.choice(plain)
     fit = [p for p, dts in PARSER_FNS.items()
            if dts == ("*",) or c["dtype"] in dts]
-    return {"method": method, "targets": [c["name"]], "fn": rng.choice(fit)}
+    fn = rng.choice(fit)
+    if "cls_clip" in fit and rng.random() < 0.25:
+        fn = "cls_clip"
+    return {"method": method, "targets": [c["name"]], "fn": fn}
 
 
 # Config options whose default is None ("not set"): a subclass may set an
@@ -522,8 +567,13 @@ def resolve(prog, i, nonstr_regex="str"):
     methods = {}       # method name -> (kind, definition)
     options, extras = {}, {}
     leaf = prog["classes"][i]
+    limit = None       # what ``cls._pvm_limit`` is for cls = class i
+    limit_at = {}      # class index -> what it is for that ancestor
     for ci in chain(prog, i):
         c = prog["classes"][ci]
+        if c.get("limit") is not None:
+            limit = c["limit"]
+        limit_at[ci] = limit
         for f in c["fields"]:
             prev = cols.get(f["attr"])
             if prev is not None:
@@ -569,12 +619,24 @@ def resolve(prog, i, nonstr_regex="str"):
             # names a live check / parser method designates literally that
             # are no column of this class (an override renamed the column)
             "dangling": [],
+            "limit": limit,
+            # a custom method whose body reads cls._pvm_limit is live
+            "_cls_dep": False,
+            # ... and is inherited from an ancestor for which cls._pvm_limit
+            # has another value: [(method, value for the ancestor)]
+            "cls_dep_inherited": [],
             "_methods": {m: {"checks": "check", "df_checks": "df_check",
                              "parsers": "parser",
                              "df_parsers": "df_parser"}[k]
                          for m, (k, _, _) in methods.items()}}
     # nearest class first, the order the MRO is walked in
     for m, (kind, d, ci) in sorted(methods.items(), key=lambda kv: -kv[1][2]):
+        dep = cls_dep(d.get("pred")) or cls_dep(d.get("fn"))
+        lim = limit if dep else None
+        if dep:
+            flat["_cls_dep"] = True
+            if ci != i and limit_at[ci] != limit:
+                flat["cls_dep_inherited"].append([m, limit_at[ci]])
         if kind == "checks":
             if d["regex"]:
                 tg = [c for c in columns
@@ -601,23 +663,26 @@ def resolve(prog, i, nonstr_regex="str"):
                      "title": "%s:%s" % (d["method"], d["pred"]),
                      "element_wise": d["element_wise"], "method": d["method"],
                      "explicit_name": d["name"] is not None,
-                     "inherited": ci != i})
+                     "inherited": ci != i, "limit": lim})
         elif kind == "parsers":
             flat["dangling"] += [n for n in d["targets"] if not any(
                 c["name"] == n for c in columns)]
             for c in columns:
                 if c["name"] in d["targets"]:
                     c["parsers"].append({"name": d["method"], "fn": d["fn"],
-                                         "title": "%s:%s" % (d["method"], d["fn"])})
+                                         "title": "%s:%s" % (d["method"], d["fn"]),
+                                         "limit": lim})
         elif kind == "df_checks":
             flat["df_checks"].append(
                 {"name": d["name"] or d["method"], "pred": d["pred"],
                  "title": None if (d["bare"] and not d["name"])
                  else "%s:%s" % (d["method"], d["pred"]),
                  "col": d["col"], "method": d["method"],
-                 "explicit_name": d["name"] is not None, "inherited": ci != i})
+                 "explicit_name": d["name"] is not None, "inherited": ci != i,
+                 "limit": lim})
         else:
-            flat["df_parsers"].append({"name": d["method"], "fn": d["fn"]})
+            flat["df_parsers"].append({"name": d["method"], "fn": d["fn"],
+                                       "limit": lim})
     # schema name: explicit in the class's own Config; a Config that
     # subclasses the parent's Config inherits whatever name that one has
     # (not documented -> not judged); otherwise the class name.
@@ -726,6 +791,30 @@ def build_models(prog, log=None, on_defined=None, ann_variant=0):
     dfpred = pl_dfpred if backend == "polars" else pd_dfpred
     built = []
     dtypes = []      # per class: attr -> dtype as resolved so far
+    if prog.get("limit_style", "const") == "classmethod":
+        def getlim(cls):
+            return cls._pvm_limit()
+    else:
+        def getlim(cls):
+            return cls._pvm_limit
+
+    def body(kind, meth, name, make):
+        """The custom method: records the ``cls`` it receives; a cls_* body
+        reads the class constant through it on every call."""
+        if cls_dep(name):
+            def fn(cls, arg):
+                if log is not None:
+                    log.append((kind, meth, cls))
+                return make(getlim(cls))(arg)
+        else:
+            p = make(None)
+
+            def fn(cls, arg):
+                if log is not None:
+                    log.append((kind, meth, cls))
+                return p(arg)
+        return fn
+
     for i, c in enumerate(prog["classes"]):
         parent = built[c["parent"]] if c["parent"] is not None else pa.DataFrameModel
         known = dict(dtypes[c["parent"]]) if c["parent"] is not None else {}
@@ -733,6 +822,11 @@ def build_models(prog, log=None, on_defined=None, ann_variant=0):
               "__annotations__": {}}
         if c["doc"]:
             ns["__doc__"] = c["doc"]
+        if c.get("limit") is not None:
+            if prog.get("limit_style", "const") == "classmethod":
+                ns["_pvm_limit"] = classmethod(lambda cls, _v=c["limit"]: _v)
+            else:
+                ns["_pvm_limit"] = c["limit"]
         for f in c["fields"]:
             if f["ann"]:
                 ns["__annotations__"][f["attr"]] = annotation(
@@ -749,10 +843,10 @@ def build_models(prog, log=None, on_defined=None, ann_variant=0):
             return fn
 
         for d in c["checks"]:
-            p = pred(d["pred"], d["element_wise"])
-            fn = method(lambda cls, arg, _p=p, _m=d["method"]:
-                        (log.append(("check", _m, cls)) if log is not None else None,
-                         _p(arg))[1], d["method"])
+            fn = method(body("check", d["method"], d["pred"],
+                             lambda lim, _d=d: pred(_d["pred"],
+                                                    _d["element_wise"], lim)),
+                        d["method"])
             targets = [ns[t] if d["by"] == "field" else t for t in d["targets"]]
             # the title identifies (method, predicate) on both sides, so that
             # structurally equal checks with different functions stay apart
@@ -766,10 +860,9 @@ def build_models(prog, log=None, on_defined=None, ann_variant=0):
             ns[d["method"]] = pa.check(*targets, **kw)(
                 classmethod(fn) if d["as_classmethod"] else fn)
         for d in c["df_checks"]:
-            p = dfpred(d["pred"], d["col"])
-            fn = method(lambda cls, arg, _p=p, _m=d["method"]:
-                        (log.append(("df_check", _m, cls)) if log is not None else None,
-                         _p(arg))[1], d["method"])
+            fn = method(body("df_check", d["method"], d["pred"],
+                             lambda lim, _d=d: dfpred(_d["pred"], _d["col"], lim)),
+                        d["method"])
             title = "%s:%s" % (d["method"], d["pred"])
             if d["name"]:
                 ns[d["method"]] = pa.dataframe_check(name=d["name"], title=title)(fn)
@@ -778,13 +871,15 @@ def build_models(prog, log=None, on_defined=None, ann_variant=0):
             else:
                 ns[d["method"]] = pa.dataframe_check(title=title)(fn)
         for d in c["parsers"]:
-            p = parser_fn(d["fn"])
-            fn = method(lambda cls, arg, _p=p: _p(arg), d["method"])
+            fn = method(body("parser", d["method"], d["fn"],
+                             lambda lim, _d=d: parser_fn(_d["fn"], lim)),
+                        d["method"])
             ns[d["method"]] = pa.parser(
                 *d["targets"], title="%s:%s" % (d["method"], d["fn"]))(fn)
         for d in c["df_parsers"]:
-            p = df_parser_fn(d["fn"])
-            fn = method(lambda cls, arg, _p=p: _p(arg), d["method"])
+            fn = method(body("df_parser", d["method"], d["fn"],
+                             lambda lim, _d=d: df_parser_fn(_d["fn"], lim)),
+                        d["method"])
             ns[d["method"]] = pa.dataframe_parser(fn)
         if c["config"]:
             bases = (parent.Config,) if c["config"]["style"] == "subclass" else ()
@@ -829,7 +924,8 @@ def build_schema(flat, backend):
                   for c in col["checks"]]
         for cc in col["custom_checks"]:
             kw = {"element_wise": True} if cc["element_wise"] else {}
-            checks.append(pa.Check(pred(cc["pred"], cc["element_wise"]),
+            checks.append(pa.Check(pred(cc["pred"], cc["element_wise"],
+                                        cc.get("limit")),
                                    name=cc["name"], title=cc["title"], **kw))
         kw = dict(checks=checks, nullable=col["nullable"], unique=col["unique"],
                   coerce=col["coerce"], required=col["required"],
@@ -838,11 +934,13 @@ def build_schema(flat, backend):
                   metadata=col["metadata"])
         if backend == "pandas":
             from pandera.api.parsers import Parser
-            kw["parsers"] = [Parser(parser_fn(p["fn"]), name=p["name"],
+            kw["parsers"] = [Parser(parser_fn(p["fn"], p.get("limit")),
+                                    name=p["name"],
                                     title=p.get("title"))
                              for p in col["parsers"]]
         columns[col["name"]] = pa.Column(dtype, **kw)
-    checks = [pa.Check(dfpred(d["pred"], d["col"]), name=d["name"],
+    checks = [pa.Check(dfpred(d["pred"], d["col"], d.get("limit")),
+                       name=d["name"],
                        title=d["title"])
               for d in flat["df_checks"]]
     for name, value in flat["extras"].items():
@@ -860,7 +958,8 @@ def build_schema(flat, backend):
         drop_invalid_rows=o.get("drop_invalid_rows", False))
     if backend == "pandas":
         from pandera.api.parsers import Parser
-        kw["parsers"] = [Parser(df_parser_fn(p["fn"]), name=p["name"])
+        kw["parsers"] = [Parser(df_parser_fn(p["fn"], p.get("limit")),
+                                name=p["name"])
                          for p in flat["df_parsers"]]
     return pa.DataFrameSchema(columns, **kw)
 
